@@ -726,7 +726,7 @@ func (fc *FnCtx) genericCopy(st *State, c *ast.CallExpr, dst VSlice, src Val) Va
 }
 func (fc *FnCtx) genericSpecElem(env *specEnv, s VSlice, i T) Val {
 	if isCellType(s.Elem) {
-		return fc.decodeCell(sel(sel(env.st.cheap, s.Rgn), add(s.Off, i)), s.Elem, s.Rgn, T{})
+		return fc.decodeElem(sel(sel(env.st.cheap, s.Rgn), add(s.Off, i)), s.Elem, s.Rgn, T{})
 	}
 	panic(unsupported("contract over []" + s.Elem.String() + " elements"))
 }
